@@ -6,7 +6,9 @@ from . import zones as Z
 from . import tzif as T
 
 THEOREMS = {'C01': ['Cctz.C01.breakTime_table', 'Cctz.C01.breakTime_shift', 'Cctz.C01.fixed_table', 'Cctz.C01.fixed_lookup'],
-            'C02': [], 'C03': [], 'C06': [],
+            'C02': ['Cctz.C02.farApart_separated', 'Cctz.C02.makeTime', 'Cctz.C02.shift', 'Cctz.C02.makeTime_needs_TimesInRange', 'Cctz.C02.shift_needs_after_last'],
+            'C03': ['Cctz.C03.roundtrip', 'Cctz.C03.converse'],
+            'C06': ['Cctz.C06.convert_monotone', 'Cctz.C06.convert_def', 'Cctz.C06.convert_monotone_needs_TimesInRange', 'Cctz.C06.convert_monotone_needs_FirstEntryRoom'],
             'C10': ['Cctz.C10.saturate_max', 'Cctz.C10.saturate_max_small', 'Cctz.C10.saturate_min', 'Cctz.C10.saturate_min_small',
                     'Cctz.C10.max_roundtrip', 'Cctz.C10.min_roundtrip', 'Cctz.C10.saturate_max_needs_time_bound'],
             'C11': [], 'C14': []}
